@@ -25,6 +25,8 @@ var serverStubs = map[string]string{
 	"github.com/tailscale/setec/server.backupKey":         "verifStubBackupKey",
 	"context.WithTimeout":                                 "verifStubWithTimeout",
 	"time.After":                                          "verifStubTimeAfter",
+	"time.NewTicker":                                      "verifStubNewTicker",
+	"(*time.Ticker).Stop":                                 "verifStubTickerStop",
 	"context.TODO":                                        "engine:nilctx",
 }
 
